@@ -36,4 +36,5 @@ def validate(ctx, module, traces, name, cfg=None, timeout=3600, env=None, files=
         raise MachineryError(f'{module}: {len(verdicts)} verdicts for {len(traces)} traces\n'
                              + res.stdout[-3000:])
     ctx.add_tlc(name, res, impl_traces=len(traces) if counts_as_impl else 0)
+    ctx.last_tlc = res
     return [verdicts[i + 1] for i in range(len(traces))]
